@@ -1,6 +1,7 @@
 (* Values of package object, their String(), Type() and the Go-data binding. *)
 From Coq Require Import String.
 From TW Require Export Bytes Floats GenFail.
+From TW Require Import GenMisc.
 Open Scope N_scope.
 
 Inductive value :=
@@ -48,6 +49,86 @@ Fixpoint all_some {A} (l : list (option A)) : option (list A) :=
   | None :: _ => None
   end.
 
+(* ---------- @dump: Object.Dump(ident) for the values an expression can have, and the frame
+   (object/dump.go: outputHTML, a format with one %s, regenerated into GenMisc.dump_output_html) *)
+Fixpoint split_fmt (t : bytes) : bytes * bytes :=
+  match t with
+  | [] => ([], [])
+  | c :: t' =>
+    if (c =? 37) && (hd 0 t' =? 115) then ([], tl t')
+    else let (a, b) := split_fmt t' in (c :: a, b)
+  end.
+Definition dump_frame (v : bytes) : bytes :=
+  let (pre, post) := split_fmt dump_output_html in pre ++ v ++ post.
+
+Definition hex_digit (d : N) : N := if d <? 10 then 48 + d else 87 + d.
+
+(* strconv.Quote (the %q verb) on ASCII; None for bytes >= 128 (Unmodelled) *)
+Fixpoint quote_body (s : bytes) : option bytes :=
+  match s with
+  | [] => Some []
+  | c :: s' =>
+    match quote_body s' with
+    | None => None
+    | Some r =>
+      if c =? 34 then Some (92 :: 34 :: r)
+      else if c =? 92 then Some (92 :: 92 :: r)
+      else if (32 <=? c) && (c <=? 126) then Some (c :: r)
+      else if c =? 7 then Some (92 :: 97 :: r)        (* \a *)
+      else if c =? 8 then Some (92 :: 98 :: r)        (* \b *)
+      else if c =? 12 then Some (92 :: 102 :: r)      (* \f *)
+      else if c =? 10 then Some (92 :: 110 :: r)      (* \n *)
+      else if c =? 13 then Some (92 :: 114 :: r)      (* \r *)
+      else if c =? 9 then Some (92 :: 116 :: r)       (* \t *)
+      else if c =? 11 then Some (92 :: 118 :: r)      (* \v *)
+      else if c <? 128 then Some (92 :: 120 :: hex_digit (c / 16) :: hex_digit (c mod 16) :: r)   (* \x.. *)
+      else None
+    end
+  end.
+Definition go_quote (s : bytes) : option bytes :=
+  match quote_body s with Some r => Some (34 :: r ++ [34]) | None => None end.
+
+Definition indent (n : nat) : bytes := concat (repeat [32; 32] n).
+Definition ends_with (suf s : bytes) : bool := prefixb (rev suf) (rev s).
+
+Fixpoint dump_value (ident : nat) (v : value) {struct v} : option bytes :=
+  match v with
+  | VNil => Some (bs "<span class='textwire-keyword'>nil</span>")
+  | VBool b => Some (bs "<span class='textwire-keyword'>" ++ (if b then bs "true" else bs "false") ++ bs "</span>")
+  | VInt z => Some (bs "<span class='textwire-num'>" ++ Z_to_dec z ++ bs "</span>")
+  | VFloat f => match f_string f with
+                | Some t => Some (bs "<span class='textwire-num'>" ++ t ++ bs "</span>")
+                | None => None
+                end
+  | VStr t => match go_quote t with
+              | Some q => Some (bs "<span class='textwire-str'>" ++ q ++ bs "</span>")
+              | None => None
+              end
+  | VArr l =>
+    match all_some (map (dump_value (S ident)) l) with
+    | Some ds =>
+      let res := bs "<span class='textwire-meta'>array:" ++ nat_to_dec (List.length l) ++ bs " </span>" ++
+                 bs "<span class='textwire-brace'>[</span>" ++ [10] ++
+                 concat (map (fun d => indent (S ident) ++ d ++ [44; 10]) ds) in
+      let res' := if ends_with (bs "}</span>") res then res ++ [10] else res in
+      Some (res' ++ indent ident ++ bs "<span class='textwire-brace'>]</span>")
+    | None => None
+    end
+  | VObj m =>
+    let ds := map (fun kv => match kv with (k, x) => (k, dump_value (S ident) x) end) m in
+    match all_some (map (fun kd => match snd kd with
+                                   | Some d => Some (indent (S ident) ++ bs "<span class=""textwire-prop"">""" ++ fst kd ++
+                                                     bs """</span>" ++ bs ": " ++ d ++ [44; 10])
+                                   | None => None end) (asort ds)) with
+    | Some ls =>
+      Some (bs "<span class='textwire-meta'>object:" ++ nat_to_dec (List.length m) ++ bs " </span>" ++
+            bs "<span class='textwire-brace'>{</span>" ++ [10] ++ concat ls ++
+            indent ident ++ bs "<span class='textwire-brace'>}</span>")
+    | None => None
+    end
+  | _ => None      (* statement objects cannot be the value of an expression *)
+  end.
+
 (* Object.String(); None = a float outside the printable class (Unmodelled) *)
 Fixpoint value_string (v : value) : option bytes :=
   match v with
@@ -80,7 +161,7 @@ Fixpoint value_string (v : value) : option bytes :=
   | VReserve c a => match a with Some x => value_string x | None => value_string c end
   | VComponent c => value_string c
   | VSlot c => value_string c
-  | VDump _ => None
+  | VDump vals => Some (concat (map dump_frame vals))
   end.
 
 (* hasControlStmt(obj, BREAK_OBJ / CONTINUE_OBJ): recursive scan through nested Blocks *)
